@@ -1,20 +1,25 @@
-"""C06  Chemkin mechanism files transcribe the model faithfully (partial: no read-back)."""
+"""C06  Chemkin mechanism files transcribe the model faithfully (partial: writers on a skeleton with symbolic numbers; reader on symbolic equations)."""
 from checks.common import *
+import os
 from checks.stubs import StubSpecies, CatSite, ref_val
 
 USES_STRINGS = True
 
 META = dict(
-    functions=['pmutt.io.chemkin.write_gas/write_surf/write_EA/write_T_flow/write_tube_mole/_write_reaction_lines/_write_column_line/'
+    functions=['pmutt.io.chemkin.read_reactions/_remove_rate_parameters (regular expressions interpreted on symbolic characters)',
+               'pmutt.io.chemkin.write_gas/write_surf/write_EA/write_T_flow/write_tube_mole/_write_reaction_lines/_write_column_line/'
                '_get_max_reaction_len/_get_specie_str', 'pmutt.reaction.ChemkinReaction._is_gas_phase/_get_n_surf/get_A/get_*_act (as called by the writers)',
                'pmutt.reaction.Reactions.get_species', 'Reaction.to_string'],
     bounds=dict(quick='a concrete mechanism skeleton (3 gas species, 3 adsorbates + vacant site + bulk on one catalyst site; gas reaction with TS, '
                       'adsorption without TS, surface reaction with TS, desorption without TS; integer stoichiometry 1-2) and a two-site variant; every '
                       'number symbolic: all species model values (affine in T, P), site densities, occupancies as given, sticking coefficients, beta, T, '
                       'P, Q, abyv, mole fractions, 1-3 run conditions; activation methods E/H/G in dimensional and dimensionless form',
-                thorough='adds the remaining activation-method x option combinations'),
-    outside_claim=['reading the equations back with read_reactions (regular expressions with look-behind over whole-file concrete text: nothing symbolic '
-                   'remains to decide)', 'printed precision (a number is identified by the (format, value) token the writer produced)',
+                      '. Reader: one reaction line between comment / REACTIONS / STICK / END lines; 1-2 species per side with names of 1-4 symbolic '
+                      'characters (letter, then letters / digits / parentheses), optional coefficients of 1-2 symbolic digits, arrows = <=> =>, with and '
+                      'without blanks, four concrete rate-column texts (incl. negative Ea and E-07 exponents, and none)',
+                thorough='adds the remaining activation-method x option combinations; every arrow x blank combination and two more equation shapes'),
+    outside_claim=['composition writer -> reader on one text (the writers run on concrete names with symbolic numbers, the reader on symbolic names with '
+                   'concrete rate columns; both share the line format  <equation><blanks>A beta Ea)', 'printed precision (a number is identified by the (format, value) token the writer produced)',
                    'mechanisms with symbolic structure (phase of a species, presence of a TS): the skeleton is a configuration'],
     stubs=['species = StubSpecies (getter protocol)', '_get_file_timestamp: real clock text (first comment line, not examined)'],
     assumptions=[],
@@ -346,6 +351,121 @@ def h_tube_mole(ctx, ncond):
             num_eq(ctx, '%s: mole fraction in run %d (0 when not given)' % (nm, k), toks[k][1], conds[k].get(nm, 0.0))
 
 
+# ------------------------------------------------------------------------------------ reader
+NAME0 = [(65, 90)]                               # first character of a species name: a letter
+NAMEX = [(65, 90), (48, 57), (40, 41)]           # later characters: letters, digits, parentheses
+ARROWS = ['=', '<=>', '=>']
+
+
+def _species_cells(ctx, tag, length, ncoef):
+    """(cells of the printed term, cells of the name, coefficient value)"""
+    name = [ctx.char('%s.n0' % tag, NAME0)] + [ctx.char('%s.n%d' % (tag, i), NAMEX) for i in range(1, length)]
+    digits = []
+    for k in range(ncoef):
+        digits.append(ctx.char('%s.k%d' % (tag, k), [(49, 57)] if k == 0 else [(48, 57)]))
+    coef = 1 if not digits else None
+    if digits:
+        coef = 0
+        for d in digits:
+            coef = coef * 10 + (ctx.code(d) - 48)
+    return digits + name, name, coef
+
+
+def h_reader(ctx, shape, arrow, spaced, params):
+    """read_reactions on a reaction section whose species names and coefficients are symbolic characters:
+    shape = ((len, ncoef), ...) for the reactants, same for the products; params = the text of the rate-parameter columns"""
+    from pmutt.io.chemkin import read_reactions
+    lhs, rhs = shape
+    plus = [' ', '+', ' '] if spaced else ['+']
+    eq_cells, want = [], dict(R=[], P=[])
+    for side, key in ((lhs, 'R'), (rhs, 'P')):
+        for i, (ln, nc) in enumerate(side):
+            term, name, coef = _species_cells(ctx, '%s%d' % (key, i), ln, nc)
+            if i:
+                eq_cells += plus
+            eq_cells += term
+            want[key].append((name, coef))
+        if key == 'R':
+            eq_cells += ([' '] + list(arrow) + [' ']) if spaced else list(arrow)
+    # region split: the reader tells an arrow from the exponent of a number by the two characters in front of it
+    # (look-behind [0-9][eE]); an equation whose left-hand side ends in <digit>E right before the arrow is its own region
+    region = ''
+    if not spaced:
+        # position of the arrow in eq_cells
+        n_l = 0
+        for i, (ln, nc) in enumerate(lhs):
+            n_l += ln + nc + (len(plus) if i else 0)
+        idx = n_l
+        if idx >= 2:
+            c1, c2 = eq_cells[idx - 1], eq_cells[idx - 2]
+            is_E = (c1 == 'E') if isinstance(c1, str) else bool(ctx.code(c1) == 69)
+            if is_E:
+                is_d = c2.isdigit() if isinstance(c2, str) else bool((ctx.code(c2) >= 48) & (ctx.code(c2) <= 57))
+                if is_d:
+                    region = ' [left-hand side ends in <digit>E directly before the arrow]'
+    head = ['!Surface-phase reactions: A + B = C, rate = k', 'REACTIONS  MWON   KCAL/MOL']
+    tail = ['STICK', 'END']
+    cells = []
+    for h in head:
+        cells += list(h) + ['\n']
+    cells += eq_cells + list(params) + ['\n']
+    for t in tail:
+        cells += list(t) + ['\n']
+    text = ctx.string(cells)
+    try:
+        if ctx.is_sym():
+            from symx import symstr
+            symstr.VFS['mem://c06.inp'] = text
+            out = read_reactions('mem://c06.inp')
+        else:
+            import tempfile
+            fd, path = tempfile.mkstemp(suffix='.inp')
+            os.close(fd)
+            try:
+                with open(path, 'w') as f:
+                    f.write(text)
+                out = read_reactions(path)
+            finally:
+                os.unlink(path)
+    except Exception as e:
+        ctx.fail('read_reactions raised %s%s' % (type(e).__name__, region))
+        return
+    rxns, reactants, r_st, products, p_st = out
+    ctx.true('exactly the one reaction line is read (comments, header, STICK, END skipped)' + region, len(rxns) == 1 and len(reactants) == 1 and len(products) == 1)
+    if not (len(rxns) == 1 and len(reactants) == 1 and len(products) == 1):
+        return
+    ctx.true('reaction text is the equation without the rate parameters', rxns[0] == ctx.string(eq_cells))
+    for key, names, st in (('R', reactants[0], r_st[0]), ('P', products[0], p_st[0])):
+        side = 'reactants' if key == 'R' else 'products'
+        ctx.true('%s: as many species as written (nothing else is taken for a species)' % side, len(names) == len(want[key]) and len(st) == len(want[key]))
+        if len(names) == len(want[key]) and len(st) == len(want[key]):
+            for i, (name, coef) in enumerate(want[key]):
+                ctx.true('%s[%d]: name read back unchanged' % (side, i), names[i] == ctx.string(name))
+                ctx.true('%s[%d]: stoichiometric coefficient read back' % (side, i), st[i] == coef)
+
+
+def _reader_groups(tier):
+    th = tier == 'thorough'
+    g = []
+    PARAMS = ['                  3.000E-01   1.000E+00   0.000E+00', '   8.335E+18   1.000E+00  -1.192E+01', ' 5.3E-07 0.5 2.1E-01', '']
+    shapes = [(((2, 0),), ((3, 1),)), (((2, 0), (4, 1)), ((3, 1),)), (((1, 1),), ((2, 0), (3, 1))), (((3, 2),), ((3, 0),))]
+    if th:
+        shapes += [(((2, 1), (2, 1)), ((2, 1), (2, 1))), (((4, 1),), ((4, 1), (1, 0)))]
+    combos = [(a, sp) for a in ARROWS for sp in (False, True)]
+    for si, shape in enumerate(shapes):
+        for pi, params in enumerate(PARAMS):
+            base = si * len(PARAMS) + pi
+            pick = combos if th else [combos[base % 6], combos[(base + 3) % 6]]
+            for arrow, spaced in pick:
+                if params == '' and spaced:
+                    continue
+                nm = '+'.join('%dc%d' % (c, l) for l, c in shape[0]) + '_' + '+'.join('%dc%d' % (c, l) for l, c in shape[1])
+                an = {'=': 'eq', '<=>': 'rev', '=>': 'irr'}[arrow]
+                g.append(dict(name='reader/%s/arrow-%s/spaced=%s/params%d' % (nm, an, spaced, pi), harness=h_reader,
+                              params=dict(shape=shape, arrow=arrow, spaced=spaced, params=params), no_validate=True, max_paths=3000))
+    return g
+
+
 def groups(tier):
     th = tier == 'thorough'
     g = []
@@ -367,4 +487,5 @@ def groups(tier):
         g.append(dict(name='T_flow/%d' % n, harness=h_T_flow, params=dict(n=n), no_validate=True))
     for n in (1, 2):
         g.append(dict(name='tube_mole/%dcond' % n, harness=h_tube_mole, params=dict(ncond=n), no_validate=True))
+    g += _reader_groups(tier)
     return g
